@@ -3,7 +3,7 @@ package keeper
 import (
 	"context"
 
-	lockuptypes "cosmossdk.io/x/accounts/defaults/lockup/v1"
+	lockuptypes "github.com/sunriselayer/sunrise/x/accounts/self_delegatable_lockup/v1"
 	accounttypes "cosmossdk.io/x/accounts/v1"
 
 	lockup "github.com/sunriselayer/sunrise/x/accounts/self_delegatable_lockup"
